@@ -164,3 +164,42 @@ func VerifC15_HardenedEnv() {
 	vxCover("an-entry-is-filtered", len(out) < len(env)+7)
 	vxCover("an-entry-is-kept", len(out) > 7)
 }
+
+// ---- call-site clause ("used for every packages.Load") -------------------------------------
+// Symbolically the engine replaces packages.Load by a recorder of Config.Env that always fails;
+// natively the real loader cannot be observed, so counterexamples of this harness are confirmed
+// by concrete re-execution of the SSA (EngineReplay).
+
+func vxLoadCalls() int         { panic(vxStop{"engine-only"}) }
+func vxLoadEnv(k int) []string { panic(vxStop{"engine-only"}) }
+
+// VerifC15_LoadSite: whatever the ambient environment, every packages.Load issued by
+// loadPackagesFromSource receives exactly the environment GetHardenedEnv computes (which
+// VerifC15_HardenedEnv shows to be hardened), and the loader is actually consulted.
+func VerifC15_LoadSite() {
+	n := vxParam("entries", 1)
+	maxLen := vxParam("maxlen", 13)
+	env := make([]string, n)
+	for i := 0; i < n; i++ {
+		e := vxStr(maxLen)
+		vxAssume(vxPrintable(e))
+		env[i] = e
+	}
+	vxSetEnviron(env)
+	want := GetHardenedEnv()
+
+	_, err := loadPackagesFromSource("/a/x.go", "package x")
+
+	vxCover("loader-failure-propagates", err != nil)
+	calls := vxLoadCalls()
+	vxAssert("loader-consulted", calls >= 1)
+	for k := 0; k < calls; k++ {
+		got := vxLoadEnv(k)
+		vxAssert("env-length", len(got) == len(want))
+		same := true
+		for i := 0; i < len(got) && i < len(want); i++ {
+			same = vxAnd(same, vxStrEq(got[i], want[i]))
+		}
+		vxAssert("env-is-hardened-env", same)
+	}
+}
